@@ -25,10 +25,12 @@
 (* Variant: "asis" = the code; "patched" = proposed repair of F4 (a follower whose wait ends by timeout and whose tag has     *)
 (* already been taken out of the map by the reader keeps waiting - stay[c]: its further waits in m_wait have no deadline,     *)
 (* args.timeout itself is untouched - until the reader has marked it COLLECTED); "nonotify" (a returning caller does not notify m_wait) and "collectself" (the reader collects through its own  *)
-(* context instead of the target's) are deliberately broken variants that the invariants must catch.                        *)
+(* context instead of the target's) are deliberately broken variants that the invariants must catch.  "patched2" = patched   *)
+(* + a sketch of a repair of C11b (issue_operation keeps a phase that is already COLLECTED; wait_completion treats "issued    *)
+(* but no longer in the map" as "a reader is collecting into this context" and waits for COLLECTED instead of EINVAL).        *)
 EXTENDS Naturals, Integers, Sequences, FiniteSets, TLC
 CONSTANTS C, Timed, MaxExpire, MaxErr, MaxBogus, Variant, EarlyResponse
-ASSUME Timed \subseteq C /\ Variant \in {"asis", "patched", "nonotify", "collectself"}
+ASSUME Timed \subseteq C /\ Variant \in {"asis", "patched", "patched2", "nonotify", "collectself"}
 None == "none"
 UNKNOWN == 99                       \* a tag the engine never allocated
 GARBAGE == 98                       \* what args.tag holds after body bytes were read as a header
@@ -132,13 +134,19 @@ SendDone(c) ==
   /\ \/ pc[c] = "sent" /\ UNCHANGED sent
      \/ ~EarlyResponse /\ pc[c] = "sending" /\ ~shut /\ sent' = sent \cup {atag[c]}
   /\ mw' = None
-  /\ IF Lookup(atag[c]) = {}
+  /\ IF Variant = "patched2" /\ phase[c] = "COLLECTED"
+     THEN \* repair of C11b: the phase is not overwritten; "result already collected before wait" (ooo:132-136) returns it
+          /\ NotifyOne /\ Finish(c, IF ret[c] > 0 THEN "ok" ELSE "fail", "collected_early")
+          /\ UNCHANGED <<atag, otag, mtag, map, mr, phase, th, ret, hdr, targ, stay, envx, buf, mytag, claimedBy, erasedBy, uar>>
+     ELSE IF Lookup(atag[c]) = {} /\ Variant # "patched2"
      THEN \* "context not found in map" (the response was collected before the send returned): EINVAL, no notify (DEFER at :123 not reached)
           /\ phase' = [phase EXCEPT ![c] = "ISSUED"] /\ Finish(c, "fail", IF claimedBy[c] # None /\ phase[c] # "COLLECTED" THEN "notinmap_claimed" ELSE "notinmap")
           /\ UNCHANGED <<atag, otag, mtag, map, mr, cvq, wake, th, ret, hdr, targ, stay, envx, buf, mytag, claimedBy, erasedBy, uar>>
-     ELSE /\ phase' = [phase EXCEPT ![c] = "WAITING"] /\ th' = [th EXCEPT ![c] = c]
+     ELSE \* (patched2: issued but no longer in the map = a reader is collecting into this context: wait for it without deadline)
+          /\ phase' = [phase EXCEPT ![c] = "WAITING"] /\ th' = [th EXCEPT ![c] = c]
+          /\ stay' = [stay EXCEPT ![c] = (Lookup(atag[c]) = {})]
           /\ TryReader(c)
-          /\ UNCHANGED <<atag, mtag, map, ret, hdr, targ, stay, envx, gho>>
+          /\ UNCHANGED <<atag, mtag, map, ret, hdr, targ, envx, gho>>
 
 \* the reader starts do_completion = do_recv_header (rpc.cpp:93-103)
 LdrStart(c) ==
@@ -243,7 +251,7 @@ FollowerWake(c) ==
           /\ NotifyOne /\ Finish(c, IF ret[c] > 0 THEN "ok" ELSE "fail", "collected")
           /\ UNCHANGED <<atag, otag, mtag, map, mw, mr, phase, th, ret, hdr, targ, stay, env, buf, mytag, claimedBy, erasedBy, uar>>
      ELSE IF wake[c] \in {"timeout", "intr"}
-          THEN IF Variant = "patched" /\ Lookup(atag[c]) = {}
+          THEN IF Variant \in {"patched", "patched2"} /\ Lookup(atag[c]) = {}
                THEN \* repair: a reader holds our context (tag already taken out of the map): stay until it is COLLECTED
                     /\ stay' = [stay EXCEPT ![c] = TRUE]
                     /\ cvq' = Append(cvq, c) /\ wake' = [wake EXCEPT ![c] = None] /\ cur' = None
